@@ -139,13 +139,21 @@ harness(void) {
 
   if (n == 0 && vp_nrep == 0)
     VP_WITNESS("nothing returned, nothing reported");
-#if VP_N >= 7
+/* a physical record needs 7 bytes inside one block */
+#define VP_B1 (VP_START == 0 ? VP_N : (VP_N < 32768 - VP_START ? VP_N : 32768 - VP_START))
+#define VP_B2 (VP_N - VP_B1)
+#if VP_B1 >= 7 || VP_B2 >= 7
   if (n > 0)
     VP_WITNESS("a record returned");
   if (vp_nrep > 0)
     VP_WITNESS("a drop reported");
 #endif
-#if VP_N >= 15
+#ifdef VP_FIXLEN
+#define VP_CAN_ASSEMBLE (VP_START == 0 && VP_FIXLEN >= 1 && VP_N >= 2 * (7 + VP_FIXLEN))
+#else
+#define VP_CAN_ASSEMBLE (VP_START == 0 && VP_N >= 15)
+#endif
+#if VP_CAN_ASSEMBLE
   if (assembled)
     VP_WITNESS("a FIRST..LAST record assembled");
 #endif
